@@ -34,11 +34,13 @@ class YosysStructuralTranslatorL3(
         ret += s.ifc_port_gen( d, msb, f"{ifc_id}__{i}", _id, n_dim[1:] )
       return ret
 
-  def ifc_conn_gen( s, d, cpid, _pid, cwid, _wid, idx, n_dim ):
+  def ifc_conn_gen( s, d, cpid, _pid, cwid, _wid, idx, n_dim, ifc_idx = "" ):
+    # ifc_idx: the indices into the interface array collected so far (outer
+    # dimension first); they come before the index of the port itself
     if d.startswith( "input" ):
-      template = "assign {wid}{idx} = {pid};"
+      template = "assign {wid}{ifc_idx}{idx} = {pid};"
     else:
-      template = "assign {pid} = {wid}{idx};"
+      template = "assign {pid} = {wid}{ifc_idx}{idx};"
 
     if not n_dim:
       pid = f"{cpid}__{_pid}"
@@ -48,8 +50,7 @@ class YosysStructuralTranslatorL3(
       ret = []
       for i in range( n_dim[0] ):
         _cpid = f"{cpid}__{i}"
-        _idx  = f"[{i}]{idx}"
-        ret += s.ifc_conn_gen( d, _cpid, _pid, cwid, _wid, _idx, n_dim[1:] )
+        ret += s.ifc_conn_gen( d, _cpid, _pid, cwid, _wid, idx, n_dim[1:], f"{ifc_idx}[{i}]" )
       return ret
 
   #-----------------------------------------------------------------------
